@@ -1,6 +1,8 @@
 --------------------------- MODULE Trace_Decoders ---------------------------
-(* one event per decoder call: [fmt, len, steps, outcome]; steps = source lines executed inside
-   the library; the budget is linear in the buffer length with a generous constant *)
+(* one event per decoder call: [fmt, len, steps, outcome, tb1, tbn]; steps = source lines executed inside
+   the library; the budget is linear in the buffer length with a generous constant.  tb1 / tbn: size of the
+   error (traceback entries) of the 1st and the 12th rejection of the same response, 0 when not measured: what a
+   rejection keeps allocated must not grow with the number of rejections *)
 EXTENDS Naturals, Sequences, TLC, Json, IOUtils
 Trace == JsonDeserialize(IOEnv.TRACE_FILE)
 VARIABLE l
@@ -8,8 +10,10 @@ BudgetOf(n) == 2000 + 1000 * n
 TInit == l = 1
 Step == /\ l <= Len(Trace)
         /\ LET e == Trace[l] IN
-           IF e.outcome # "budget" /\ e.steps <= BudgetOf(e.len) THEN TRUE
-           ELSE PrintT(<<"VERDICT", ToJson([i |-> l, clause |-> "Termination", detail |-> ToString(BudgetOf(e.len))])>>)
+           /\ IF e.outcome # "budget" /\ e.steps <= BudgetOf(e.len) THEN TRUE
+              ELSE PrintT(<<"VERDICT", ToJson([i |-> l, clause |-> "Termination", detail |-> ToString(BudgetOf(e.len))])>>)
+           /\ IF e.tbn <= e.tb1 THEN TRUE
+              ELSE PrintT(<<"VERDICT", ToJson([i |-> l, clause |-> "BoundedAllocation", detail |-> ToString(<<e.tb1, e.tbn>>)])>>)
         /\ l' = l + 1
 Finish == l = Len(Trace) + 1 /\ PrintT(<<"CONSUMED", ToJson([n |-> l - 1])>>) /\ UNCHANGED l
 TSpec == TInit /\ [][Step \/ Finish]_l
